@@ -7,6 +7,7 @@ CONSTANTS
   MinBuf = 0
   MaxBuf = 2
   RawChoices = {FALSE, TRUE}
+  DevIgnoredWrite = FALSE
   Emit = FALSE
 INVARIANTS TypeOK
 PROPERTIES ErrSurfacesLive
